@@ -353,7 +353,12 @@ func vTimerScript(r *vrand, l *vlog, nops int) [][]string {
 		add("timer new rtx %d %d %s", r.n(5), maxRetrans, vF(rtoMax))
 		l.stat(fmt.Sprintf("timer.kind.rtx.maxRetrans=%d", maxRetrans))
 	}
-	rtos := []float64{1000, 1000, 1000.9, 1500.7, 200, 3000, 0.4, 0, 61000, 2000, 1}
+	// rto >= 1 ms only: with a zero interval the next callback goroutine starts at the same virtual
+	// instant while the previous one is still between releasing the timer mutex and calling the
+	// observer (the observer call is deferred past the unlock), so the ORDER in which the observer
+	// sees them is up to the Go scheduler (seen: "T2.2, F2, T2.1"). Non-test code never starts a
+	// timer below RTO.Min.
+	rtos := []float64{1000, 1000, 1000.9, 1500.7, 200, 3000, 1.5, 61000, 2000, 1}
 	sleeps := func() int64 {
 		base := []int64{1, vMs, 100 * vMs, 200*vMs - 1, 200 * vMs, 200*vMs + 1, 999 * vMs, 1000*vMs - 1, 1000 * vMs, 1000*vMs + 1,
 			1500 * vMs, 2000 * vMs, 3000 * vMs, 7000 * vMs, 15000 * vMs, 31000 * vMs, 63000 * vMs, 130000 * vMs, 600000 * vMs,
